@@ -98,9 +98,10 @@ def run(ctx: Ctx) -> None:
             got, ok = str(ex), False
         ctx.add('C08.R1', target.replace('self.data.', 'stat:'), ok, (cs.file, s.lineno), f'{target.split(".")[-1]} = {got}' + ('' if ok else f'; the defining formula is {want}'), detail=str(got))
         if target in GUARD:
-            v = s.value
-            okg = isinstance(v, ast.IfExp) and unparse(v.test) == f'{GUARD[target]} is not None'
-            ctx.add('C08.R1', target.replace('self.data.', 'stat:') + ':guard', okg, (cs.file, s.lineno), f'computed only when {GUARD[target].split(".")[-1]} is available' if okg else f'guard of {target}: {unparse(v.test) if isinstance(v, ast.IfExp) else "none"}', 'guard')
+            # normal form of `x = f if g is not None else None`: if g is None: x = None / else: x = f
+            encl = [n for n in walk_no_nested(cs.node) if isinstance(n, ast.If) and (s in n.body or s in n.orelse)]
+            okg = len(encl) == 1 and ((s in encl[0].orelse and unparse(encl[0].test) == f'{GUARD[target]} is None') or (s in encl[0].body and unparse(encl[0].test) == f'{GUARD[target]} is not None'))
+            ctx.add('C08.R1', target.replace('self.data.', 'stat:') + ':guard', okg, (cs.file, s.lineno), f'computed only when {GUARD[target].split(".")[-1]} is available' if okg else f'guard of {target}: {unparse(encl[0].test) if encl else "none"}', 'guard')
     # pairwise test
     ct = BR.methods['_calculate_test']
     i, j, mat = ct.positional_params()[1:4]
@@ -366,7 +367,11 @@ return biogeme.tools.likelihood_ratio.likelihood_ratio_test((_LU, _KU), (_LR, _K
                 if (what == 'estimate row' and re.fullmatch(r'\(\w+\.name, \w+\)', tkey)) or (what != 'estimate row' and what.split()[0] in tkey):
                     got = unparse(n.value)
         ctx.add('C08.R3', f'compile_estimation_results:{what}', ok, ce, f'{what} holds {attr[1:]}' if ok else f'{what} holds {got} (robust statistics are announced)', re.sub(r'^\w+\.', 'b.', got or ''))
-    okfmt = has_expr(ce.node, "f'({_B.robust_stdErr:.3g})' if include_robust_stderr else ''") and has_expr(ce.node, "f'({_B.robust_tTest:.3g})' if include_robust_ttest else ''") and has(ce.node, "_V = f'{_B.value:.3g} {_S} {_T}'")
+    okfmt = has(ce.node, """
+_S = (f'({_B.robust_stdErr:.3g})' if include_robust_stderr else '') if _B.robust_stdErr is not None else __Q1
+_T = (f'({_B.robust_tTest:.3g})' if include_robust_ttest else '') if _B.robust_tTest is not None else __Q2
+_V = f'{_B.value:.3g} {_S} {_T}'
+""")
     ctx.add('C08.R3', 'compile_estimation_results:formatted', okfmt, ce, 'formatted cell = value (robust std err) (robust t-test)' if okfmt else 'formatted cell of the compiled table changed', 'fmt')
     for fam in FAMILIES:
         m = BR.methods[f'get_{fam}var_covar']
